@@ -47,7 +47,7 @@ Proof.
   - destruct (prepare ver r) as [[]| ? ? ? []|w]; simpl; try (split; intros; lia).
     destruct (should_follow r (hp_code hp) (hp_loc hp)) eqn:Es; [|simpl; split; intros; lia].
     apply should_follow_iff in Es. destruct Es as [Hf [_ [Hm _]]].
-    destruct (redirect_request orig r (w_headers w) (hp_code hp) (hp_joined hp)) as [r'| |] eqn:Er;
+    destruct (redirect_request orig r (w_headers w) (hp_code hp) (hp_joined hp)) as [r'| | | |] eqn:Er;
       try (simpl; split; intros; lia).
     apply redirect_decrements in Er. destruct Er as [Em Ef].
     destruct (IH r') as [IH1 IH2]. destruct (chain ver orig r' script) as [l f]. simpl in *.
@@ -254,7 +254,7 @@ Proof.
       destruct (P2 C2 C3) as [X|[u [us [pw [E1 E2]]]]]; [left; exact X|]. right.
       rewrite Eu in E1. inversion E1; subst. eauto. }
     destruct (should_follow r (hp_code hp) (hp_loc hp)); [|simpl; repeat constructor; exact Me].
-    destruct (redirect_request orig r (w_headers w) (hp_code hp) (hp_joined hp)) as [r'| |] eqn:Er;
+    destruct (redirect_request orig r (w_headers w) (hp_code hp) (hp_joined hp)) as [r'| | | |] eqn:Er;
       try (simpl; repeat constructor; exact Me).
     pose proof (IH r' Ho (redirect_req_clean _ _ _ _ _ _ _ Ho Er)) as IHr.
     destruct (chain ver orig r' script) as [l f]. simpl in *. constructor; [exact Me|exact IHr].
